@@ -38,7 +38,7 @@ def _node(t, Str):
     cands = ()
     special = False
     if k == z3.Z3_OP_SELECT or k == z3.Z3_OP_STORE:
-        cands = (ch[1],)
+        cands = (ch[1],) if ch[1].sort().eq(Int) else ()
     elif k == z3.Z3_OP_UNINTERPRETED and ch:
         cands = tuple(c for c in ch if c.sort().eq(Int))
         special = d.name() in ("joinr", "strip", "lstrip", "rstrip")
